@@ -27,7 +27,7 @@ Proof. destruct o; cbn; [apply H|reflexivity]. Qed.
 
 Lemma msg_eqb_eq a b : msg_eqb a b = true -> a = b.
 Proof.
-  destruct a, b. unfold msg_eqb. cbn [m_seq m_id m_ch m_cno m_uid m_hash m_payload m_ts].
+  destruct a as [a1 a2 a3 a4 a5 a6 a7 a8], b as [b1 b2 b3 b4 b5 b6 b7 b8]. unfold msg_eqb. cbn [m_seq m_id m_ch m_cno m_uid m_hash m_payload m_ts].
   intro H. beq. apply Z.eqb_eq in H0. subst. reflexivity.
 Qed.
 
@@ -169,58 +169,57 @@ Section Reads.
     - intro H. exists i. split; [exact H|apply N.eqb_refl].
   Qed.
 
+  Lemma byid_stored kv s c rows i :
+    Rkv kv s -> Rchan kv s c rows -> ~ In i (as_tids s) ->
+    forall r, In r rows -> r_id r = i -> kget (KyGid i) kv = Some (VGid c (r_seq r)).
+  Proof.
+    intros Hk Rc Ht r Hin Hid. rewrite <- Hid. apply (rk_gc _ _ Hk).
+    - apply Rc. split; [exact Hin|reflexivity].
+    - rewrite Hid. exact Ht.
+  Qed.
+
+  Lemma byid_none kv s c rows i :
+    Rkv kv s -> Rchan kv s c rows -> (forall q, kget (KyGid i) kv <> Some (VGid c q)) ->
+    spec_check_read s (OById c i) (XMsgO None) = true.
+  Proof.
+    intros Hk Rc Hno. cbn [spec_check_read].
+    destruct (existsb (N.eqb i) (as_tids s)) eqn:T; [reflexivity|].
+    rewrite (Rchan_amsgs _ _ _ _ Rc), find_map_none; [reflexivity|].
+    intros r' Hr'. cbn [m_id messageFromRow]. apply N.eqb_neq. intro Hid.
+    assert (Ht : ~ In i (as_tids s)) by (intro X; apply existsb_Neqb_in in X; rewrite T in X; discriminate).
+    apply (Hno (r_seq r')). eapply byid_stored; eassumption.
+  Qed.
+
   Lemma check_byid st s c i : R st s ->
     spec_check_read s (OById c i) (out_of (GetByMessageID F st c i) (fun ro => XMsgO (option_map messageFromRow ro))) = true.
   Proof.
     intros [Hk _]. destruct (rk_chan _ _ Hk c) as [rows Rc]. unfold GetByMessageID.
     destruct (i =? 0) eqn:Ei.
     - cbn. rewrite Ei. reflexivity.
-    - assert (Hi : i <> 0) by (apply N.eqb_neq; exact Ei).
-      (* what the specification expects when the id is not tainted *)
-      assert (Hstored : ~ In i (as_tids s) -> forall r, In r rows -> r_id r = i ->
-                        kget (KyGid i) (st_kv F st) = Some (VGid c (r_seq r))).
-      { intros Ht r Hin Hid. rewrite <- Hid. apply (rk_gc _ _ Hk).
-        - apply Rc. split; [exact Hin|reflexivity].
-        - rewrite Hid. exact Ht. }
-      destruct (kget (KyGid i) (st_kv F st)) as [v|] eqn:G.
-      + destruct v as [|c' q| | | |];
-          try (cbn [out_of option_map spec_check_read];
-               destruct (existsb (N.eqb i) (as_tids s)) eqn:T; [reflexivity|];
-               rewrite (Rchan_amsgs _ _ _ _ Rc), find_map_none; [reflexivity|];
-               intros r' Hr'; cbn [m_id messageFromRow]; apply N.eqb_neq; intro Hid;
-               assert (X := Hstored (proj1 (not_iff_compat (existsb_Neqb_in i _)) ltac:(rewrite T; discriminate)) r' Hr' Hid);
-               discriminate X).
-        destruct (c' =? c) eqn:Ec; cbn [negb].
-        * apply N.eqb_eq in Ec. subst c'.
-          destruct (rk_gs _ Hk _ _ _ G) as [r [Gr Hid]].
-          apply Rc in Gr. destruct Gr as [Hin Hs].
-          assert (Hq : q <> 0) by (rewrite <- Hs; eapply row_seq_pos; eassumption).
-          destruct (getRowBySeq_spec _ _ _ _ q Rc Hq) as [[r2 [Hin2 [Hs2 E]]]|[Hno E]].
-          2:{ exfalso. apply (Hno r Hin). exact Hs. }
-          assert (r2 = r) by (apply (sorted_lt_inj rows); [apply Rc|assumption|assumption|lia]). subst r2.
-          rewrite E. cbn [bind]. rewrite Hid, N.eqb_refl. cbn [out_of option_map spec_check_read].
-          destruct (existsb (N.eqb i) (as_tids s)) eqn:T.
-          -- rewrite (in_msgs_row _ _ _ _ _ Rc Hin). cbn [m_id messageFromRow]. rewrite Hid, N.eqb_refl. reflexivity.
-          -- rewrite (Rchan_amsgs _ _ _ _ Rc).
-             rewrite (find_map_row (fun m => m_id m =? i) rows r Hin).
-             ++ cbn. apply msg_eqb_refl.
-             ++ cbn [m_id messageFromRow]. rewrite Hid. apply N.eqb_refl.
-             ++ intros r' Hr' Hid'. cbn [m_id messageFromRow] in Hid'. apply N.eqb_eq in Hid'.
-                assert (Ht : ~ In i (as_tids s)) by (intro X; apply existsb_Neqb_in in X; rewrite T in X; discriminate).
-                pose proof (Hstored Ht r' Hr' Hid') as X. rewrite G in X. injection X as X.
-                apply (sorted_lt_inj rows); [apply Rc|assumption|assumption|lia].
-        * cbn [out_of option_map spec_check_read].
-          destruct (existsb (N.eqb i) (as_tids s)) eqn:T; [reflexivity|].
-          rewrite (Rchan_amsgs _ _ _ _ Rc), find_map_none; [reflexivity|].
-          intros r' Hr'. cbn [m_id messageFromRow]. apply N.eqb_neq. intro Hid.
+    - destruct (kget (KyGid i) (st_kv F st)) as [v|] eqn:G.
+      2:{ cbn [out_of option_map]. eapply byid_none; [exact Hk|exact Rc|]. intros q X. rewrite G in X. discriminate. }
+      destruct v as [|c' q| | | |];
+        try (cbn [out_of option_map]; eapply byid_none; [exact Hk|exact Rc|]; intros q0 X; rewrite G in X; discriminate).
+      destruct (c' =? c) eqn:Ec; cbn [negb].
+      2:{ cbn [out_of option_map]. eapply byid_none; [exact Hk|exact Rc|]. intros q0 X. rewrite G in X.
+          injection X as X _. subst. rewrite N.eqb_refl in Ec. discriminate. }
+      apply N.eqb_eq in Ec. subst c'.
+      destruct (rk_gs _ _ Hk _ _ _ G) as [r [Gr Hid]].
+      apply Rc in Gr. destruct Gr as [Hin Hs].
+      assert (Hq : q <> 0) by (rewrite <- Hs; eapply row_seq_pos; eassumption).
+      destruct (getRowBySeq_spec _ _ _ _ q Rc Hq) as [[r2 [Hin2 [Hs2 E]]]|[Hno E]].
+      2:{ exfalso. apply (Hno r Hin). exact Hs. }
+      assert (r2 = r) by (apply (sorted_lt_inj rows); [apply Rc|assumption|assumption|lia]). subst r2.
+      rewrite E. cbn [bind ok]. rewrite Hid, N.eqb_refl. cbn [out_of option_map spec_check_read ok].
+      destruct (existsb (N.eqb i) (as_tids s)) eqn:T.
+      + rewrite (in_msgs_row _ _ _ _ _ Rc Hin). cbn [m_id messageFromRow]. rewrite Hid, N.eqb_refl. reflexivity.
+      + rewrite (Rchan_amsgs _ _ _ _ Rc).
+        rewrite (find_map_row (fun m => m_id m =? i) rows r Hin).
+        * cbn. apply msg_eqb_refl.
+        * cbn [m_id messageFromRow]. rewrite Hid. apply N.eqb_refl.
+        * intros r' Hr' Hid'. cbn [m_id messageFromRow] in Hid'. apply N.eqb_eq in Hid'.
           assert (Ht : ~ In i (as_tids s)) by (intro X; apply existsb_Neqb_in in X; rewrite T in X; discriminate).
-          pose proof (Hstored Ht r' Hr' Hid) as X. rewrite G in X. injection X as X _. subst c'.
-          rewrite N.eqb_refl in Ec. discriminate.
-      + cbn [out_of option_map spec_check_read].
-        destruct (existsb (N.eqb i) (as_tids s)) eqn:T; [reflexivity|].
-        rewrite (Rchan_amsgs _ _ _ _ Rc), find_map_none; [reflexivity|].
-        intros r' Hr'. cbn [m_id messageFromRow]. apply N.eqb_neq. intro Hid.
-        assert (Ht : ~ In i (as_tids s)) by (intro X; apply existsb_Neqb_in in X; rewrite T in X; discriminate).
-        pose proof (Hstored Ht r' Hr' Hid) as X. rewrite G in X. discriminate X.
+          pose proof (byid_stored _ _ _ _ _ Hk Rc Ht r' Hr' Hid') as X. rewrite G in X. injection X as X.
+          apply (sorted_lt_inj rows); [apply Rc|assumption|assumption|lia].
   Qed.
 End Reads.
